@@ -22,6 +22,20 @@ def run_merge(a, b, ml, ms):
     return r, a1, b1
 
 
+def run_assoc(a, b, c, ml, ms):
+    """both groupings of three trees through the real merge_data_trees (exception class on failure)"""
+    def m2(x, y):
+        try:
+            return ("ok", DS.merge_data_trees(copy.deepcopy(x), copy.deepcopy(y), ml, ms))
+        except Exception as e:     # noqa: BLE001
+            return ("exc", exc_code(e))
+    ab = m2(a, b)
+    left = ab if ab[0] == "exc" else m2(ab[1], c)
+    bc = m2(b, c)
+    right = bc if bc[0] == "exc" else m2(a, bc[1])
+    return left, right
+
+
 class Recording(DS.DataSource):
     """data source with a fixed answer that notes what it is asked"""
     def __init__(self, idx, out, found, glog, flog):
@@ -88,6 +102,8 @@ def norm_gres(x):
 
 
 def norm_obs(kind, x):
+    if kind == "assoc":
+        return [norm_res(x[0]), norm_res(x[1])]
     if kind == "merge":
         return [norm_res(x[0]), norm(x[1]), norm(x[2])]
     return [[[c[0], c[1], norm(c[2]), c[3]] for c in x[0]], norm_gres(x[1]), x[2], x[3]]
@@ -98,7 +114,8 @@ class C13(Check):
     technique = ("Coq proofs about a Gallina model of _merge_data_trees / _CompositeDataSource / aggregate_version "
                  "(merge_lookup_spec, identities, idempotence, composite = fold with exact source arguments, "
                  "first non-None, version injectivity) + differential correspondence with the real functions")
-    rule = ("merge cases: every ordered pair of dict trees over {None,0,1,'x',b'x',[],(),set(),{}} and nested "
+    rule = ("assoc cases: every triple of dict trees up to 2 nodes and random triples up to 3 nodes / random deeper trees, "
+            "both groupings through the real merge_data_trees compared incl. the exception class; merge cases: every ordered pair of dict trees over {None,0,1,'x',b'x',[],(),set(),{}} and nested "
             "list/tuple/set/dict with node-count bound, all four (merge_lists, merge_sets) settings, the single-key "
             "family {a:X} x {a:Y} over sampled pairs of values up to 3 nodes, and seeded random deeper trees (tuple/bytes/int/None "
             "keys, opaque objects); chain cases: chains of 0..4 recording sources (fixed answer or raising) through the "
@@ -139,6 +156,19 @@ class C13(Check):
                 a[rng.choice(list(a))] = rng.choice([True, False])
             ml, ms = rng.choice(flags)
             yield {"kind": "merge", "a": a, "b": b, "ml": ml, "ms": ms}
+        # associativity (incl. the exception): every triple of trees up to 2 nodes, random triples of trees up to 3 nodes
+        small = [pyval.thaw(t) for n in (1, 2) for t in pyval.trees(n)]
+        for a, b, c in itertools.product(small, repeat=3):
+            for ml, ms in flags:
+                yield {"kind": "assoc", "a": a, "b": b, "c": c, "ml": ml, "ms": ms}
+        mid = [pyval.thaw(t) for n in (1, 2, 3) for t in pyval.trees(n)]
+        for i in range(4000 if tier == "quick" else 150000):
+            if i % 4 == 0:
+                a, b, c = (pyval.rand_tree(rng, 3, keys=("a", "b", 1)) for _ in range(3))
+            else:
+                a, b, c = (rng.choice(mid) for _ in range(3))
+            ml, ms = rng.choice(flags)
+            yield {"kind": "assoc", "a": a, "b": b, "c": c, "ml": ml, "ms": ms}
         # chains
         menu = [{"a": 1}, {"a": 2, "b": [1]}, {"b": [2, 1]}, {"c": {"d": 1}}, {"c": {"e": {1}}}, {"c": 5}, {}, {"a": {"x": None}}]
         n_ex = 0
@@ -177,11 +207,15 @@ class C13(Check):
 
     # ---- real code
     def impl(self, c):
+        if c["kind"] == "assoc":
+            return run_assoc(c["a"], c["b"], c["c"], c["ml"], c["ms"])
         if c["kind"] == "merge":
             return run_merge(c["a"], c["b"], c["ml"], c["ms"])
         return run_chain(c)
 
     def enc_obs(self, c, o):
+        if c["kind"] == "assoc":
+            return [enc_res_tree(o[0]), enc_res_tree(o[1])]
         if c["kind"] == "merge":
             r, a1, b1 = o
             return [enc_res_tree(r), enc(a1), enc(b1)]
@@ -189,6 +223,8 @@ class C13(Check):
         return [[[i, s, enc(d), v] for (i, s, d, v) in glog], enc_gres(gres), list(flog), enc_ostr(fres)]
 
     def line(self, c, o):
+        if c["kind"] == "assoc":
+            return sx([2, c["ml"], c["ms"], enc(c["a"]), enc(c["b"]), enc(c["c"]), self.enc_obs(c, o)])
         if c["kind"] == "merge":
             return sx([0, c["ml"], c["ms"], enc(c["a"]), enc(c["b"]), self.enc_obs(c, o)])
         srcs = [[[0, [enc(s["data"]), s["ver"]]] if s["exc"] is None else [1, s["exc"]], enc_ostr(s["find"])]
@@ -199,15 +235,28 @@ class C13(Check):
     def evaluate(self, cases):
         # model observations are brought to the same canonical form as canon() (set members sorted)
         res = super().evaluate(cases)
-        return [(c, o, norm_obs(c["kind"], m), fm, fi, rest) for (c, o, m, fm, fi, rest) in res]
+        out = []
+        for (c, o, m, fm, fi, rest) in res:
+            # rest[0] = 0: a triple on which the MODEL's two groupings disagree (associativity is checked, not proved)
+            if rest and rest[0] == 0:
+                self._not_assoc_in_model.add(id(c))
+                fm = fm or ["merge_assoc(model)"]
+            out.append((c, o, norm_obs(c["kind"], m), fm, fi, rest))
+        return out
+
+    _not_assoc_in_model = set()
 
     def canon(self, o):
         # the case kind is recoverable from the observation's arity
-        kind = "merge" if len(o) == 3 else "chain"
+        kind = {2: "assoc", 3: "merge"}.get(len(o), "chain")
         c = {"kind": kind}
         return norm_obs(kind, unsx(sx(self.enc_obs(c, o))))
 
     def nontrivial(self, c, o):
+        if c["kind"] == "assoc":
+            if any(k in c["b"] and k in c["c"] for k in c["a"]):
+                return sx([enc(c["a"]), enc(c["b"]), enc(c["c"]), c["ml"], c["ms"]])
+            return None
         if c["kind"] == "merge":
             if any(k in c["b"] for k in c["a"]):
                 return sx([enc(c["a"]), enc(c["b"]), c["ml"], c["ms"]])
@@ -217,6 +266,9 @@ class C13(Check):
         return None
 
     def show(self, c):
+        if c["kind"] == "assoc":
+            return {"kind": "assoc", "a": pyval.show(c["a"]), "b": pyval.show(c["b"]), "c": pyval.show(c["c"]),
+                    "merge_lists": c["ml"], "merge_sets": c["ms"]}
         if c["kind"] == "merge":
             return {"kind": "merge", "a": pyval.show(c["a"]), "b": pyval.show(c["b"]),
                     "merge_lists": c["ml"], "merge_sets": c["ms"]}
@@ -227,8 +279,8 @@ class C13(Check):
         return d
 
     def shrink(self, c):
-        if c["kind"] == "merge":
-            for side in ("a", "b"):
+        if c["kind"] in ("merge", "assoc"):
+            for side in (("a", "b") if c["kind"] == "merge" else ("a", "b", "c")):
                 t = c[side]
                 for k in list(t):
                     s = dict(t)
